@@ -476,4 +476,25 @@ def checkDecomp (A : SpMat α) (p q : Array Nat) (blocks : List (SpMat α)) : Bo
   ((List.range A.nrows).all fun i => (List.range A.ncols).all fun j =>
     isZero (sub (entry A i j) (bdEntry blocks (p.getD i 0) (q.getD j 0))))
 
+/-! ### executable connectivity check of one block ("does not split further") -/
+
+/-- stored non-zero entries `(row, column)` -/
+def nzEdges (B : SpMat α) : List (Nat × Nat) :=
+  (List.range B.ncols).flatMap fun j => (col B j).filterMap fun e => if isZero e.2 then none else some (e.1, j)
+
+/-- one sweep: an edge with a marked end marks both ends (rows are vertices `0..h`, columns `h..h+w`) -/
+def sweep (h : Nat) (es : List (Nat × Nat)) (seen : Array Bool) : Array Bool :=
+  es.foldl (fun s e =>
+    if s.getD e.1 false || s.getD (h + e.2) false then (s.setIfInBounds e.1 true).setIfInBounds (h + e.2) true else s) seen
+
+def sweeps (h : Nat) (es : List (Nat × Nat)) : Nat → Array Bool → Array Bool
+  | 0, s => s
+  | k + 1, s => sweeps h es k (sweep h es s)
+
+/-- every row and column of the block is reachable from vertex 0 through non-zero entries -/
+def connectedBlk (B : SpMat α) : Bool :=
+  let n := B.nrows + B.ncols
+  let s := sweeps B.nrows (nzEdges B) n ((Array.replicate n false).setIfInBounds 0 true)
+  (List.range n).all fun v => s.getD v false
+
 end Yuiv.C12
